@@ -193,7 +193,11 @@ func buildC18Entries() []c18Entry {
 		add("size", fmt.Sprintf("size.DefaultParser[string](%d)", r), true, false, func(a, _ string) (bool, error) { v, err := size.DefaultParser(a, r); return v == 0, err })
 		add("size", fmt.Sprintf("size.DefaultParser[[]byte](%d)", r), true, false, func(a, _ string) (bool, error) { v, err := size.DefaultParser([]byte(a), r); return v == 0, err })
 	}
-	add("size", "size.DefaultParser[string](-1)", true, false, func(a, _ string) (bool, error) { v, err := size.DefaultParser(a, -1); return v == 0, err })
+	for _, rv := range []size.Rule{-1, 16, 22, 1 << 20, 6 | 1<<10} {
+		rv := rv
+		add("size", fmt.Sprintf("size.DefaultParser[string](%d)", rv), true, false, func(a, _ string) (bool, error) { v, err := size.DefaultParser(a, rv); return v == 0, err })
+		add("size", fmt.Sprintf("size.DefaultParser[[]byte](%d)", rv), true, false, func(a, _ string) (bool, error) { v, err := size.DefaultParser([]byte(a), rv); return v == 0, err })
+	}
 	add("size", "size.Size.UnmarshalText", true, false, func(a, _ string) (bool, error) {
 		var v size.Size
 		err := v.UnmarshalText([]byte(a))
@@ -209,7 +213,11 @@ func buildC18Entries() []c18Entry {
 		add("uu", fmt.Sprintf("uu.DefaultParser[string](%d)", r), true, false, func(a, _ string) (bool, error) { v, err := uu.DefaultParser(a, r); return v == uu.ID{}, err })
 		add("uu", fmt.Sprintf("uu.DefaultParser[[]byte](%d)", r), true, false, func(a, _ string) (bool, error) { v, err := uu.DefaultParser([]byte(a), r); return v == uu.ID{}, err })
 	}
-	add("uu", "uu.DefaultParser[string](-1)", true, false, func(a, _ string) (bool, error) { v, err := uu.DefaultParser(a, -1); return v == uu.ID{}, err })
+	for _, rv := range []uu.Rule{-1, 4, 8, 1 << 20, 5, 6, 7} {
+		rv := rv
+		add("uu", fmt.Sprintf("uu.DefaultParser[string](%d)", rv), true, false, func(a, _ string) (bool, error) { v, err := uu.DefaultParser(a, rv); return v == uu.ID{}, err })
+		add("uu", fmt.Sprintf("uu.DefaultParser[[]byte](%d)", rv), true, false, func(a, _ string) (bool, error) { v, err := uu.DefaultParser([]byte(a), rv); return v == uu.ID{}, err })
+	}
 	add("uu", "uu.ID.UnmarshalText", true, false, func(a, _ string) (bool, error) {
 		var v uu.ID
 		err := v.UnmarshalText([]byte(a))
@@ -398,7 +406,7 @@ func c18Valid(r *rt.Rand, pkg string) string {
 
 func c18Hostile(r *rt.Rand, pkg string) string {
 	v := c18Valid(r, pkg)
-	switch r.Intn(12) {
+	switch r.Intn(13) {
 	case 0:
 		return string(r.Bytes(r.Intn(64)))
 	case 1: // invalid UTF-8 inside a valid text
@@ -426,6 +434,12 @@ func c18Hostile(r *rt.Rand, pkg string) string {
 		return v + v
 	case 9:
 		return strings.ToUpper(v)
+	case 11:
+		if pkg == "size" { // a JSON string whose decoded content is longer than its text (each invalid byte becomes U+FFFD)
+			n := 1 + r.Intn(126)
+			return `"` + strings.Repeat([]string{"\xff", "\xc3", "\x80", "\xf0\x9f"}[r.Intn(4)], n)[:n] + `"`
+		}
+		return strings.Repeat("\xff", 1+r.Intn(60))
 	case 10: // only multi-byte runes and separators
 		n := 1 + r.Intn(6)
 		parts := make([]string, n)
